@@ -469,4 +469,24 @@ CHECKS = {
         "components": {"real": REAL, "stubs": STUBS},
         "assumptions": ["a failing io.Writer alone does not count as 'could not be consumed completely': the rest of that reply is discarded and the connection stays usable"],
     },
+    "C41": {
+        "level": "exploration",
+        "rule": ("plans: 1-4 tasks, each 1-3 Pipeline / TxPipeline / Watch+TxPipeline sessions of the go-redis adapter on one shared client, 1-6 queued "
+                 "methods each, Discard at a seeded point, deadlines, connection faults. echo part: methods are drawn from ALL of CoreCmdable and called through "
+                 "reflection with arguments generated from the plan; the model answers every command with an error naming its global sequence number, so a "
+                 "result is attributable to one command whatever its reply type. real part: typed string/hash/list/counter commands against the model, WATCH "
+                 "sessions raced by ghost writers. oracle: every queued method adds exactly one command and one result; Exec returns the results in queue "
+                 "order; result i carries the reply of the i-th command of the batch (element i of EXEC for transactions); the batch is contiguous on one "
+                 "connection with MULTI first and EXEC last; the returned error is the first result error; EXEC answering nil is reported as TxFailedErr and "
+                 "only then; after Discard nothing of the discarded part reaches the server; no panic in Exec. non-trivial = at least one batch judged; "
+                 "distinct = distinct event-log hash"),
+        "parts": [
+            {"module": "rueidiscompat", "scenario": "compat", "quick": 4000, "thorough": 300000},
+            {"module": "rueidiscompat", "scenario": "compat", "variant": "real", "quick": 3000, "thorough": 200000},
+        ],
+        "expected_probes": ["tx-batch", "discard-then-requeue", "watch-aborted", "watch-committed", "generated-args-rejected"],
+        "components": {"real": "packages github.com/redis/rueidis/rueidiscompat and github.com/redis/rueidis built from /repo's working tree with -tags verif", "stubs": STUBS},
+        "assumptions": ["arguments a go-redis program could not pass (odd key/value lists, wrongly typed variadics) may make the adapter panic while queuing; that is not judged",
+                        "when Exec itself reports a transport or context error the individual results are not judged"],
+    },
 }
